@@ -301,7 +301,7 @@ def phase_judge(cases, impls, queries, measured, wd: Path, per_shard=10, th=None
         cfg_cid = int(case["proj"]["fs0"][str(case["proj"]["paths"].index(oc.CONFIG_NAME))])
 
         def ver(c):
-            return None if c is None else oc.enc_version(c, cfg_cid)
+            return oc.absent_version(cfg_cid) if c is None else oc.enc_version(c, cfg_cid)
 
         def split(vs, fp):
             return [v for v in vs if str(v[0]).startswith("file-placement") == fp]
